@@ -412,7 +412,7 @@ func init() {
 				}
 				if !converted {
 					op := L.metaOp1(unaryv, "__unm")
-					if op.Type() == LTFunction {
+					if op != LNil { // any non-nil handler is called (a callable table through __call)
 						reg.Push(op)
 						reg.Push(unaryv)
 						L.Call(1, 1)
@@ -450,7 +450,7 @@ func init() {
 				// +inline-call reg.SetNumber RA LNumber(len(lv))
 			default:
 				op := L.metaOp1(lv, "__len")
-				if op.Type() == LTFunction {
+				if op != LNil {
 					reg.Push(op)
 					reg.Push(lv)
 					L.Call(1, 1)
@@ -977,7 +977,7 @@ func objectArith(L *LState, opcode int, lhs, rhs LValue) LValue {
 		}
 	}
 	op := L.metaOp2(lhs, rhs, event)
-	if _, ok := op.(*LFunction); ok {
+	if op != LNil { // Lua 5.1 call_binTM: any non-nil handler is called (a callable table through __call)
 		L.reg.Push(op)
 		L.reg.Push(lhs)
 		L.reg.Push(rhs)
@@ -998,7 +998,7 @@ func stringConcat(L *LState, total, last int) LValue {
 		lhs := L.reg.Get(i)
 		if !(LVCanConvToString(lhs) && LVCanConvToString(rhs)) {
 			op := L.metaOp2(lhs, rhs, "__concat")
-			if op.Type() == LTFunction {
+			if op != LNil {
 				L.reg.Push(op)
 				L.reg.Push(lhs)
 				L.reg.Push(rhs)
@@ -1099,7 +1099,7 @@ func objectRationalWithError(L *LState, lhs, rhs LValue, event string) bool {
 func objectRational(L *LState, lhs, rhs LValue, event string) int {
 	m1 := L.metaOp1(lhs, event)
 	m2 := L.metaOp1(rhs, event)
-	if m1.Type() == LTFunction && m1 == m2 {
+	if m1 != LNil && m1 == m2 { // call_orderTM / get_compTM: the same non-nil handler on both operands
 		L.reg.Push(m1)
 		L.reg.Push(lhs)
 		L.reg.Push(rhs)
